@@ -39,6 +39,12 @@ func isPrintRanges() string {
 var c17alphabet = []byte{0, 1, 7, 8, 9, 10, 11, 12, 13, 0x1f, ' ', '"', '\'', ',', ':', '\\', '0', '5', '7', 'a', 'x', 'u', 'U', 'n', 0x7f,
 	0x80, 0xbf, 0xc0, 0xc2, 0xdf, 0xe0, 0xa0, 0xed, 0x9f, 0xef, 0xbd, 0xf0, 0x90, 0xf4, 0x8f, 0xf5, 0xff}
 
+var c17boundary = []string{
+	"\ufffd", "\ufffe", "\uffff", "\U0010ffff", "\U0010fffe", "\xed\xa0\x80", "\xed\xbf\xbf", "\u0080", "\u00a0",
+	"\u00ad", "\u2028", "\u2029", "\ufeff", "\ue000", "\u07ff", "\u0800", "\U00010000", "\xf4\x90\x80\x80", "\xc0\x80",
+	"\xe0\x80\x80", "\u200b", "\u0378", "\xef\xbf", "\xef",
+}
+
 func c17gen(g *gen, tier string, w *bufio.Writer) {
 	fmt.Fprintf(w, "isprint %s\n", isPrintRanges())
 	// exhaustive lengths 0..2
@@ -86,6 +92,21 @@ func c17gen(g *gen, tier string, w *bufio.Writer) {
 					b[j] = g.pickByte(c17alphabet)
 				} else {
 					b[j] = byte(g.intn(256))
+				}
+			}
+		}
+		if i%5 == 0 {
+			// boundary runes (replacement character, non-characters, surrogates encoded as UTF-8,
+			// non-printable and format runes, planes' ends) next to bytes Bquote escapes
+			b = b[:0]
+			for k, n := 0, 1+g.intn(6); k < n; k++ {
+				switch g.intn(3) {
+				case 0:
+					b = append(b, c17boundary[g.intn(len(c17boundary))]...)
+				case 1:
+					b = append(b, g.pickByte([]byte(",:\\\n\t\x00\x7f\"'|")))
+				default:
+					b = append(b, g.pickByte(c17alphabet))
 				}
 			}
 		}
